@@ -91,10 +91,29 @@ Inductive call := CStart (f : string) | CStop (f : string) | CRestart (f : strin
 (* e_next = None: the library's zero time (no activation within the horizon) *)
 Record entry := { e_next : option Z; e_kind : skind; e_file : string }.
 
+(* addEntriesFn (entryreader.go, since 7357cf4): ONE entry per workflow and operation - the earliest non-zero Next
+   among its schedules of that kind; no entry when every Next is the zero time (or there is no schedule) *)
+Definition earlier (acc : option Z) (n : option Z) : option Z :=
+  match n with
+  | None => acc
+  | Some x => match acc with
+              | None => Some x
+              | Some a => if x <? a then Some x else acc
+              end
+  end.
+Fixpoint earliest (t : Z) (sps : list spec) (acc : option Z) : option Z :=
+  match sps with
+  | [] => acc
+  | sp :: r => earliest t r (earlier acc (next sp t))
+  end.
+Definition kind_entry (t : Z) (k : skind) (f : string) (sps : list spec) : list entry :=
+  match earliest t sps None with
+  | Some n => [{| e_next := Some n; e_kind := k; e_file := f |}]
+  | None => []
+  end.
+
 Definition entries_of (t : Z) (f : string) (e : sched3) : list entry :=
-  map (fun sp => {| e_next := next sp t; e_kind := KStart; e_file := f |}) (starts e) ++
-  map (fun sp => {| e_next := next sp t; e_kind := KStop; e_file := f |}) (stops e) ++
-  map (fun sp => {| e_next := next sp t; e_kind := KRestart; e_file := f |}) (restarts e).
+  kind_entry t KStart f (starts e) ++ kind_entry t KStop f (stops e) ++ kind_entry t KRestart f (restarts e).
 
 (* entryReaderImpl.Read(now): t = now in unix seconds *)
 Definition read_entries (s : state) (t : Z) : list entry :=
